@@ -157,7 +157,7 @@ def generate(seed: int, run: int, tier: str) -> dict:
             evict = sorted(rng.sample(range(1, rng.choice([30, 120, 400])), rng.choice([1, 2, 3, 6]))) if rng.random() < p_evict else []
             if rng.random() < p_diff and _size(ast) <= 16:
                 var = "t" if has_t and rng.random() < 0.85 else ("s%d" % rng.randrange(ns) if ns else "t")
-                ops.append({"op": "diff", "ast": ast, "var": var, "order": rng.choice([1, 1, 1, 2]) if _size(ast) <= 9 else 1, "via": rng.choice(["diff", "vector_diff"]), "evict": evict})
+                ops.append({"op": "diff", "ast": ast, "var": var, "order": rng.choice([1, 1, 1, 2]) if _size(ast) <= 9 else 1, "via": rng.choice(["diff", "vector_diff"]), "evict": evict, "mode": rng.choice(["auto", "auto", "uneval"])})
             else:
                 ops.append({"op": "build", "ast": ast, "mode": mode, "evict": evict})
     env = {"hashseed": rng.choice([0, 1, 7, 42]), "cache": rng.choice([1000, 1000, 1000, 25])}
@@ -874,7 +874,7 @@ def child_run(job: dict) -> dict:
                             raw = _build(ast, world, None)
                         result = sp.sympify(raw).doit()
                 else:
-                    expr = sp.sympify(_build(ast, world, None))
+                    expr = sp.sympify(_build(ast, world, False if op.get("mode") == "uneval" else None))
                     var = world.scalars.get(op["var"]) or world.scalars["t"]
                     order = int(op.get("order", 1))
                     if op.get("via") == "vector_diff" and ast[0] in VECTOR_TAGS and expr != 0:
@@ -957,6 +957,7 @@ def child_run(job: dict) -> dict:
         "nontrivial": bool(fired) and any(e[1] in ("build", "diff") for e in events),
         "states": sorted(shapes),
         "flag_default": bool(sp.core.parameters.global_parameters.evaluate),
+        "probe_universe": _STATE["all_lines"] if str(job.get("run", "")).isdigit() and int(job["run"]) % 500 == 0 else None,
     }
 
 
@@ -1055,6 +1056,8 @@ def simplify(job: dict) -> list[dict]:
             out.append(with_op(dict(op, order=1)))
         if op.get("via") != "diff":
             out.append(with_op(dict(op, via="diff")))
+        if op.get("mode", "auto") != "auto":
+            out.append(with_op(dict(op, mode="auto")))
     if job["env"].get("cache") != 1000 or job["env"].get("hashseed") != 0:
         j = dict(job)
         j["env"] = {"hashseed": 0, "cache": 1000}
@@ -1068,8 +1071,25 @@ def finding_key(job: dict, violation: dict) -> str:
     return f"C14|{violation.get('oracle')}|{op.get('op')}|{core.canon(op.get('ast'))}"
 
 
-def all_probe_lines(pool_info) -> list[str]:
-    return []
+def extra_coverage(stats, ctx) -> dict:
+    uni = stats.extra.get("probe_universe") or []
+    never = sorted(set(uni) - set(k for k, v in stats.probes.items() if v))
+    return {
+        "probe_note": "reach_probes counts, per source line of the rewrite-rule functions (sys.monitoring LINE events; '<qualname>+<offset from def>'), the runs that executed it",
+        "probe_lines_total": len(uni),
+        "probe_lines_never_hit": never,
+    }
+
+
+RULE = ("each run: 1-3 epochs of fresh symbols (creation order, simulator-assigned identities, display names incl. collisions, assumptions) x 1-4 "
+        "generated expressions (size-capped model ASTs over vector/scalar symbols and functions of t) built automatically, unevaluated-then-doit, or under "
+        "evaluate(False)-then-doit, and differentiated; faults: cache eviction between ops and at the k-th seam call inside an op, counter jumps, address reuse, "
+        "hash seed, cache size. Non-trivial = at least one fault fired and at least one expression was judged; distinct = distinct event-log digests")
+STATE_MEASURE = "distinct model-AST shapes judged (tags only)"
+COMPONENTS = {
+    "real": ["symplyphysics.core.experimental.vectors (all constructors, rewrite rules, derivatives)", "core.experimental.miscellaneous.sort_with_sign", "SymPy core and cache"],
+    "stubbed": ["the builtin id() as seen by the vectors module (virtual identities)", "LRU eviction replaced by total eviction at scheduled instants"],
+}
 
 
 ASSUMPTIONS = [
